@@ -237,6 +237,18 @@ def check(rec, chart, tm, ticks, rcase, style):
                           f"({'strictness required' if strict else 'non-decreasing required'})", rcase, "event-times-out-of-order")
             ok = False
             break
+    if ok and len(ticks) % 12 == 1 and not rcase.get("no_threads"):
+        # the same time function for every thread: four threads sweep the shared map at once, each in another part of it
+        sub = list(ticks[::max(1, len(ticks) // 60)])
+        calls = [lambda t=t: us(be.timestamp_at_tick_no_optimize_return(t)) for t in sub] + [lambda t=t: us(be.timestamp_at_tick(t)[0]) for t in sub[::3]]
+        rec.ev(len(calls))
+        bad = harness.shared_use(rec, calls, len(ticks), rounds=2, plain_rounds=8)
+        if bad:
+            rec.violation("inversion", f"one chart's tempo map swept by 4 threads at once (ticks {sub[:4]}...{sub[-2:]}): {bad} - the order of times no longer "
+                          "follows the order of ticks for every reader", dict(rcase, shared=True), "time-differs-when-map-is-shared-by-threads")
+            ok = False
+        else:
+            rec.cls("tempo_map_swept_by_4_threads_at_once")
     if ok:
         if strict:
             rec.cls("strict_eligible_map")
@@ -271,4 +283,7 @@ def replay(case, rec):
         return
     be = out.chart.sync_track.bpm_events
     tm = model.TempoMap(be.resolution, [[e.tick, round(e.bpm * 1000)] for e in be])
-    check(rec, out.chart, tm, case["ticks"], case, "replay")
+    for _ in range(6 if case.get("shared") else 1):
+        check(rec, out.chart, tm, case["ticks"], case, "replay")
+        if rec.violations:
+            break
